@@ -170,7 +170,8 @@ REPORT = st.sampled_from(['', 'tcp://my.example.com:50001,ssl://my.example.com:5
                           'tcp://myselfonionabcdefg.onion:50001', 'ssl://[2001:4860::99]:50002'])
 POP_CASE = st.tuples(st.lists(PEER_SPEC, max_size=120), REPORT, st.integers(0, 3),
                      st.booleans(), st.integers(0, 2 ** 31),
-                     st.sampled_from([0, 0, 0, 9, 12, 30, 49, 52, 70])).map(list)
+                     st.sampled_from([0, 0, 0, 9, 12, 30, 49, 52, 70]),
+                     st.sampled_from([0, 0, 0, 30, 44, 48, 90, 200])).map(list)
 
 
 def make_env(report_services):
@@ -182,9 +183,12 @@ def make_env(report_services):
 
 
 def run_population(case):
-    specs, report, my_good, is_tor, rseed, onion_extra = case
-    # an onion-heavy stratum so the onion bound is actually reached
-    specs = list(specs) + [[len(HOST_KINDS) - 1, 0, 0, 0, 4, 1, 0]] * onion_extra
+    specs, report, my_good, is_tor, rseed, onion_extra = case[:6]
+    crowd = case[6] if len(case) > 6 else 0
+    # an onion-heavy stratum so the onion bound is actually reached, and a crowd of good public
+    # peers squeezed into six /16 buckets (many known, few advertised)
+    specs = list(specs) + [[len(HOST_KINDS) - 1, 0, 0, 0, 4, 1, 0]] * onion_extra + \
+        [[0, j % 3, j % 2, 0, 4, 1, 0] for j in range(crowd)]
     env = make_env(report)
     peers_mod.time = FakeTime
     pm = peers_mod.PeerManager(env, None)
@@ -280,6 +284,9 @@ def pop_body(ctx):
             classes.append('pop.all_ineligible_kinds')
         if info['eligible_by_bucket'].get('onion', 0) > 10:
             classes.append('pop.onion_gt10')
+            clear = sum(v for k, v in info['eligible_by_bucket'].items() if k != 'onion')
+            if clear >= 44 and full_bucket:
+                classes.append('pop.onion_gt10_and_ge44_clearnet_in_crowded_buckets')
         ctx.record(case=case, nontrivial=full_bucket and all_kinds, classes=classes,
                    sample={'check': 'c19.population', 'n_peers': info['n'],
                            'eligible_by_bucket': info['eligible_by_bucket'],
